@@ -91,7 +91,7 @@ def main():
         # the demo may hard-code its author's worktree path
         src = open(demo).read()
         patched_demo = os.path.join(tree, 'seed_demo.py')
-        for root in ('/tmp/seed9/', '/tmp/seed8/', '/tmp/seed7/', '/tmp/seed6/', '/tmp/seed5/', '/tmp/seed4/', '/tmp/seed3/', '/tmp/seed2/', '/tmp/seed/'):
+        for root in ('/tmp/seedj/', '/tmp/seed9/', '/tmp/seed8/', '/tmp/seed7/', '/tmp/seed6/', '/tmp/seed5/', '/tmp/seed4/', '/tmp/seed3/', '/tmp/seed2/', '/tmp/seed/'):
             src = src.replace(root + meta.get('property', 'C00'), tree)
         open(patched_demo, 'w').write(src)
 
